@@ -44,15 +44,18 @@ FinalViol(m, st, p, r) ==
       oldR == Slice(m.old, m.os, m.oe)
       newR == Slice(m.new, m.ns, m.ne)
       clean == ~st.failed /\ ~st.broken /\ r.ok
+      \* oracles that are quadratic in the input size are only evaluated up to fixed sizes
+      lcsOk == N <= 4000 /\ M <= 4000 /\ N * M <= 400000
+      anchOk == N + M <= 800
       D == st.dels + st.inss
       covered == SumSeq([i \in 1..Len(st.segs) |->
                    Cardinality({j \in 0..(st.segs[i][3] - 1) :
                        At(m.old, st.segs[i][1] + j) \in CommonUnique(oldR, newR)})])
-  IN SRetViol(st, r.ok, r.err, m.stack # "nofinish")
-     \cup (IF clean /\ m.fuel = -2 /\ m.alg \in {"myers", "lcs"}
+  IN SRetViol(st, r.ok, r.err, m.stack \notin {"nofinish", "replace_nofinish", "replace_nofinish_nr"})
+     \cup (IF clean /\ lcsOk /\ m.fuel = -2 /\ m.alg \in {"myers", "lcs"}
               /\ D # N + M - 2 * LcsLen(oldR, newR)
            THEN {"minimal"} ELSE {})
-     \cup (IF clean /\ m.fuel = -2 /\ m.alg = "patience"
+     \cup (IF clean /\ anchOk /\ m.fuel = -2 /\ m.alg = "patience"
               /\ covered < AnchorOptimum(oldR, newR)
            THEN {"anchors"} ELSE {})
      \cup (IF clean /\ m.fuel = -2 /\ m.stack = "none" /\ m.alg \in {"myers", "patience"}
